@@ -758,6 +758,10 @@ func (fe *FactEngine) step(ff *fnFacts, ins ssa.Instruction, st DNF, depth int) 
 		if mc, ok := c.Value.(*ssa.MakeClosure); ok && depth < 4 {
 			return fe.inlineClosure(ff, ins, mc.Fn.(*ssa.Function), st, depth)
 		}
+		if sc := c.StaticCallee(); sc != nil && depth < 4 && fe.inlineAt[sc] == ssa.Instruction(ins) {
+			// a single-call-site helper folded into this function's region
+			return fe.inlineClosure(ff, ins, sc, st, depth)
+		}
 		inLoop := blockInCycle(ins.Block())
 		self := fe.ts.Of(ins)
 		for _, a := range st {
